@@ -163,6 +163,20 @@ def run(ck):
         pdef = single_def(w, 'parameters')
         ck.ob('MPT-all-interactions', mod.loc(lw[0]), pdef is not None and u(pdef) == "' '.join((str(x) for x in {}.parameters))".format(ivar2),
               'all parameters of the interaction are written, in order', key='MPT-all-interactions|parameters')
+        # the comment is the last thing on the line: no field (parameters, atoms) is extended with it
+        aug = [n for n in ast.walk(inl) if isinstance(n, ast.AugAssign) and isinstance(n.target, ast.Name) and n.target.id in ('parameters', 'atoms', 'to_join')]
+        ext = [c for c in ast.walk(inl) if isinstance(c, ast.Call) and call_attr(c) in ('append', 'extend', 'insert') and u(c.func.value) in ('atoms', 'to_join')]
+
+        def flat(n):
+            return flat(n.left) + flat(n.right) if isinstance(n, ast.BinOp) and isinstance(n.op, ast.Add) else [n]
+        ops = flat(arg)
+        mid = ops[1:-1]
+        cdefs = {u(v) for m_ in mid if isinstance(m_, ast.Name) for v in assignments_to(w, m_.id)}
+        ok_c = len(ops) >= 2 and u(ops[0]) == "' '.join(to_join)" and u(ops[-1]) == repr('\n') and all(isinstance(m_, ast.Name) for m_ in mid) and \
+            cdefs <= {"''", "' ; ' + {}.meta['comment']".format(ivar2)} and not aug and not ext
+        ck.ob('TAB-sections', mod.loc(lw[0]), ok_c, 'the fields of a line are exactly the atoms and the parameters; a comment is appended after the last field, '
+              'never inside a field (`{}`{})'.format(txt[:70], '; field extended in place: ' + '; '.join(u(a)[:50] for a in aug + ext) if aug or ext else ''),
+              key='TAB-sections|comment-last')
     # impropers -> dihedrals before the header
     ren = stmts_with_env(w, lambda s: isinstance(s, ast.Assign) and u(s.targets[0]) == nvar and try_fold(s.value) == 'dihedrals', stmts=il.body)
     hdr = [s for s in il.body if isinstance(s, ast.Expr) and call_attr(s.value) == 'write' and '[ {} ]' in u(s)]
